@@ -8,11 +8,13 @@ import (
 	"context"
 	"errors"
 	"fmt"
+	gotime "time"
 
 	"github.com/yorkie-team/yorkie/api/types"
 	"github.com/yorkie-team/yorkie/internal/zzvsym"
 	"github.com/yorkie-team/yorkie/pkg/document/change"
 	"github.com/yorkie-team/yorkie/pkg/document/time"
+	"github.com/yorkie-team/yorkie/pkg/key"
 	"github.com/yorkie-team/yorkie/server/backend/database"
 )
 
@@ -262,4 +264,60 @@ func VerifK31Tenancy() {
 		zzvsym.Assert(cerr == nil, "own-project-is-served")
 	}
 	zzvsym.Observe(cerr == nil)
+}
+
+// VerifK31TenancyReads: the lookups that take a project id and return lists
+// or flags (no error for "nothing found") show a foreign caller nothing of
+// the owner's data, although it knows the owner's document id and key; the
+// owner is served.
+func VerifK31TenancyReads() {
+	d, err := New()
+	zzvsym.Assert(err == nil, "new-db")
+	ctx := context.Background()
+	owner := types.ID(time.ActorID(zzvsym.Actor("projOwner")).String())
+	caller := types.ID(time.ActorID(zzvsym.Actor("projCaller")).String())
+	zzvsym.DistinctActors("projOwner", "projCaller")
+	foreign := zzvsym.IntRange("foreign", 0, 1) == 1
+	if !foreign {
+		caller = owner
+	}
+	removed := zzvsym.IntRange("removedDoc", 0, 1) == 1
+	vMustInsert(d, tblClients, &database.ClientInfo{ID: vSelf, ProjectID: owner, Key: "c", Status: database.ClientActivated,
+		Documents: database.ClientDocInfoMap{vDoc: {Status: database.DocumentAttached}}})
+	doc := &database.DocInfo{ID: vDoc, ProjectID: owner, Key: "k", ServerSeq: 3}
+	if removed {
+		doc.RemovedAt = gotime.Unix(1700000000, 0)
+	}
+	vMustInsert(d, tblDocuments, doc)
+	found := false
+	switch zzvsym.IntRange("method", 0, 4) {
+	case 0:
+		infos, err := d.FindDocInfosByIDs(ctx, caller, []types.ID{vDoc})
+		zzvsym.Assert(err == nil, "lookup-no-error")
+		found = len(infos) > 0
+	case 1:
+		infos, err := d.FindDocInfosByKeys(ctx, caller, []key.Key{"k"})
+		zzvsym.Assert(err == nil, "lookup-no-error")
+		found = len(infos) > 0
+		zzvsym.Assume(!removed) // a removed document's key is free again: nothing to find for anybody
+	case 2:
+		info, err := d.FindDocInfoByKey(ctx, caller, "k")
+		found = err == nil && info != nil
+		zzvsym.Assume(!removed)
+	case 3:
+		attached, err := d.IsDocumentAttachedOrAttaching(ctx, types.DocRefKey{ProjectID: caller, DocID: vDoc}, "")
+		zzvsym.Assert(err == nil, "lookup-no-error")
+		found = attached
+	case 4:
+		counts, err := d.FindAttachedClientCountsByDocIDs(ctx, caller, []types.ID{vDoc})
+		zzvsym.Assert(err == nil, "lookup-no-error")
+		found = counts[vDoc] > 0
+	}
+	zzvsym.Reach("looked-up")
+	if foreign {
+		zzvsym.Assert(!found, "foreign-project-learns-nothing")
+	} else {
+		zzvsym.Assert(found, "own-project-is-served")
+	}
+	zzvsym.Observe(found)
 }
